@@ -24,6 +24,9 @@ func StringToNote(note string) (byte, error) {
 	if err != nil {
 		return 0, fmt.Errorf("parsing octave failed: %w", err)
 	}
+	if match[2] == "-0" {
+		return 0, fmt.Errorf("unsupported octave: %s", match[2])
+	}
 
 	calculated := (uint8(octave)+2)*12 + pitchVal
 	if calculated < 0 || calculated > 127 {
